@@ -285,11 +285,13 @@ class Run:
 
     # -- nothing of a FAILED call stays alive once the caller let go of the exception ----
     def do_fail_census(self, i, op):
-        """ok call twice (warm-up), census A; then the failing call, twice, each time the host lets go of the
-        exception object; census C. Library objects that are alive at C and were not at A were created by a
-        failed call and kept by the library (an exception stored for diagnostics drags the frames of the failed
-        call, its Config, the caller's callbacks and texts with it). One slot is enough to violate: this is not
-        a growth measure."""
+        """ok call twice, then the failing call three times, each time the host lets go of the exception object;
+        census after the 2nd and after the 3rd failure. Library objects that are alive after the 3rd failure and
+        were not after the 2nd were created by a failed call and kept by the library (an exception stored for
+        diagnostics drags the frames of the failed call, its Config, the caller's callbacks and texts with it).
+        The warm-up rule of the steady-state census applies to failing calls too: the first failures may
+        legitimately populate argument-keyed memos, an identical repeat may not leave anything new. One slot is
+        enough to violate: this is not a growth measure."""
         host = self.host
         h = host.cfgs[op['cfg']]
         ok = {'op': 'call', 'cfg': op['cfg'], 'abbr': op['ok'], 'pin': 0}
@@ -299,38 +301,38 @@ class Run:
             ok_class = outcome[0]
             del outcome
         saved = h.last_error
-        h.last_error = None
-        inst_a, _pay, alive_a = census.instance_census(_roots(host))
-        cont_a = census.container_census()
         classes = []
-        for _ in range(2):
+        marks = []
+        for rep in range(3):
             outcome, info = host.call(bad, dict(op['fault']) if op.get('fault') else None)
             classes.append(outcome[0])
             del outcome, info
             h.last_error = None
-        inst_c, _pay, alive_c = census.instance_census(_roots(host))
-        cont_c = census.container_census()
+            if rep >= 1:
+                inst, _pay, alive = census.instance_census(_roots(host))
+                marks.append((inst, alive, census.container_census()))
         h.last_error = saved
         self.count('op:fail_census')
         self.events.append([i, 'fail_census', ok_class, classes])
         self.shape.append(['fail_census', op['cfg'], None, classes[-1]])
         if 'C08' not in self.props:
             return
-        if ok_class != 'ok' or any(c == 'ok' for c in classes):
+        if ok_class != 'ok' or any(c == 'ok' for c in classes) or len(set(classes)) != 1:
             self.count('fail-census:skipped(the calls did not end as planned)')
             return
         self.count('fail-census:measured')
-        fresh = sorted(set(k for i_, k in alive_c.items() if i_ not in alive_a))
-        g_cont = census.growth(cont_a, cont_c)
+        (inst_b, alive_b, cont_b), (inst_c, alive_c, cont_c) = marks
+        fresh = sorted(set(k for i_, k in alive_c.items() if i_ not in alive_b))
+        g_cont = census.growth(cont_b, cont_c)
         if fresh:
             self.violate('C08', 'leak', 'kept-after-failure:%s' % fresh[0], i, {
                 'cfg': op['cfg'], 'failing call': op['bad'], 'fault': op.get('fault'),
-                'library objects created by a failed call that are still alive after the caller let go of the exception': fresh[:8],
-                'instances before / after': census.growth(inst_a, inst_c)[:8]})
+                'library objects created by the 3rd identical failed call that are still alive after the caller let go of the exception': fresh[:8],
+                'instances after the 2nd / 3rd failure': census.growth(inst_b, inst_c)[:8]})
         elif g_cont:
             self.violate('C08', 'leak', 'kept-after-failure:%s' % g_cont[0][0], i, {
                 'cfg': op['cfg'], 'failing call': op['bad'], 'fault': op.get('fault'),
-                'module-lifetime containers that two failed calls left larger than two successful calls had': g_cont[:8]})
+                'module-lifetime containers grew between the 2nd and the 3rd identical failed call': g_cont[:8]})
 
     # -- unbounded growth with distinct inputs ------------------------------------
     @staticmethod
